@@ -528,4 +528,10 @@ def R7_single_via_acceptance(ctx):
     R2_single_via(ctx)
 
 
-RULES = [R1_tree_update, R2_direction, R3_backtrack, R4_edge_oriented, R5_reorient, R6_loop_test, R7_single_via_acceptance]
+def R8_yens_candidate(ctx):
+    """C01.R8 a route returned by Yen's algorithm reaches the destination: candidates end with the found spur route"""
+    from props.C13 import spur_route_rule
+    spur_route_rule(ctx, "C01.R8")
+
+
+RULES = [R1_tree_update, R2_direction, R3_backtrack, R4_edge_oriented, R5_reorient, R6_loop_test, R7_single_via_acceptance, R8_yens_candidate]
